@@ -42,9 +42,10 @@ Scn(id, filters, steps, tags) == [id |-> id, cfg |-> [filters |-> filters], step
 ---------------------------------------------------------------------------
 (* C02: the adversarial token grammar *)
 TokenClass == {"good", "algNone", "hmacWithPublicKey", "foreignKey", "kidMissing", "kidOfOtherKey", "payloadTampered",
+               "graftedOnAccepted",     \* header and signature of a token the service accepted EARLIER, around another payload
                "sigTampered", "sigStripped", "nestedJws", "garbage", "audAbsent", "audForeign", "audNearMiss", "audForeignAzpClient",
                "audArrayWithClient", "nonceAbsent", "nonceForeign", "nonceEmpty", "nonceNonString"}
-BadSig   == {"algNone", "hmacWithPublicKey", "foreignKey", "payloadTampered", "sigTampered", "sigStripped", "nestedJws", "garbage"}
+BadSig   == {"algNone", "hmacWithPublicKey", "foreignKey", "payloadTampered", "graftedOnAccepted", "sigTampered", "sigStripped", "nestedJws", "garbage"}
 BadAud   == {"audAbsent", "audForeign", "audNearMiss", "audForeignAzpClient"}   \* (azp naming the client does not make it an audience)
 BadNonce == {"nonceAbsent", "nonceForeign", "nonceEmpty", "nonceNonString"}
 \* what the property demands; classes in neither set may go either way (kid games with a genuinely valid signature)
@@ -61,7 +62,11 @@ C02Scn(p) ==
       honestRefresh == <<Tick(Life + 1), App("b1", "f1", "jar", 0, [Ans0 EXCEPT !.rotate = TRUE])>>
       rep(n) == IF n = 0 THEN <<>> ELSE IF n = 1 THEN honestRefresh ELSE honestRefresh \o honestRefresh
       steps ==
-        IF p.path = "login"
+        IF p.path = "login" /\ p.cls = "graftedOnAccepted"       \* another browser's honest login comes first
+        THEN <<Browse("b2", "f1", 2, Ans0), App("b2", "f1", "jar", 2, Ans0),
+               App("b1", "f1", "none", 1, Ans0), Authz("b1", 2), Callback("b1", "f1", "jar", "jar", "jar", "ok", bad),
+               App("b1", "f1", "jar", 1, Ans0), App("b2", "f1", "jar", 2, Ans0)>>
+        ELSE IF p.path = "login"
         THEN <<App("b1", "f1", "none", 1, Ans0), Authz("b1", 1), Callback("b1", "f1", "jar", "jar", "jar", "ok", bad),
                App("b1", "f1", "jar", 1, Ans0)>>
         ELSE <<Browse("b1", "f1", 1, Ans0)>> \o rep(p.hist) \o
